@@ -192,9 +192,8 @@ Definition mix_cfi_correct (a : arch) (base : Z) (fs : list mspec) (callee : fra
    `MAX - 2 words` guard; on amd64 the caller's sp and the saved frame pointer must be readable stack addresses and the
    saved frame pointer must not lie below the caller's sp (get_caller_by_frame_pointer's own sanity checks).
    A scan frame: the callee's frame pointer is not valid, or 0 (the frame-pointer technique gives up on it).
-   A CFI frame: a valid non-zero frame pointer is carried to the caller where the unwinder's CALLEE_SAVED_REGS names the
-   frame pointer as the frame-pointer technique does (x86 ebp, amd64 rbp; arm/arm64 list "fp" while the technique marks
-   "r11"/"x29" valid, so there the register is dropped behind a frame-pointer frame: see design/C04.md). *)
+   A CFI frame carries a valid frame pointer to the caller on every architecture (callee-saved; since the repair of
+   F-C04a arm / arm64 forward "fp" whichever alias marks it valid: [fp_carried] in C04/ProofsMix.v). *)
 Definition fp_mixable (a : arch) : bool := match a_fp a with FpX86 | FpAmd64 | FpArm64 => true | _ => false end.
 Definition st_zero (st : option Z) : bool := match st with None => true | Some v => v =? 0 end.
 Definition words_in_range (a : arch) (ws : list Z) : bool := forallb (fun w => (0 <=? w) && (w <? 2 ^ a_bits a)) ws.
@@ -208,8 +207,7 @@ Fixpoint mix_frames_ok (a : arch) (iv : Z -> bool) (module_at : Z -> option Z) (
   | f :: t =>
       words_in_range a (ms_fill f) && (a_cutoff a <=? ms_ra f) && (ms_ra f <? 2 ^ a_bits a) &&
       (match ms_tech f with
-       | TkCfi => is_some (module_at instr) && (negb (a_strip a) || (ms_ra f <? 2 ^ 47)) &&
-                  (st_zero st || memb (a_fp_name a) (a_callee_saved a))
+       | TkCfi => is_some (module_at instr) && (negb (a_strip a) || (ms_ra f <? 2 ^ 47))
        | TkScan =>
            let lo := if ctx then 0 else scan_skip_words a in
            let win := if ctx then a_scan_context a else a_scan_default a in
